@@ -7,6 +7,7 @@ import (
 
 	"github.com/spf13/cobra"
 
+	"github.com/fatedier/frp/pkg/config/legacy"
 	v1 "github.com/fatedier/frp/pkg/config/v1"
 	"github.com/fatedier/frp/pkg/config/v1/validation"
 	"github.com/fatedier/frp/pkg/msg"
@@ -167,5 +168,37 @@ func verif_parseNumberRangePair(first, second string) {
 	const ev = "util.ParseRangeNumbers"
 	if err == nil {
 		verif.Ensures(verif.CallCount(ev) == 2 && len(verif.NthRet[[]int64](ev, 0, 0)) == len(verif.NthRet[[]int64](ev, 1, 0)), "paired_only_when_both_ranges_have_the_same_length")
+	}
+}
+
+// LoadClientConfig (C18 "strict mode: a misspelt key is rejected - or not - the
+// same way in every file"): the main file and every file pulled in through
+// `includes` are decoded under the strictness the caller asked for (the
+// included files are only read for the non-legacy format, and are told so).
+// The ini parser and the loader of the included files are replaced by unknown
+// results here (trusted stubs: they are outside what this contract is about).
+//
+//verif:stub ~/pkg/config/legacy.ParseClientConfig
+func verifStubParseClientConfig(filePath string) (legacy.ClientCommonConf, map[string]legacy.ProxyConf, map[string]legacy.VisitorConf, error) {
+	return verif.Any[legacy.ClientCommonConf](), verif.Any[map[string]legacy.ProxyConf](), verif.Any[map[string]legacy.VisitorConf](), verif.Any[error]()
+}
+
+//verif:stub ~/pkg/config.LoadAdditionalClientConfigs
+func verifStubLoadAdditionalClientConfigs(paths []string, isLegacyFormat bool, strict bool) ([]v1.ProxyConfigurer, []v1.VisitorConfigurer, error) {
+	return verif.Any[[]v1.ProxyConfigurer](), verif.Any[[]v1.VisitorConfigurer](), verif.Any[error]()
+}
+
+//verif:contract ~/pkg/config.LoadClientConfig
+//verif:props C18
+//verif:kinds post
+func verif_LoadClientConfig(path string, strict bool) {
+	verif.ResetEvents()
+	_, _, _, legacyFormat, _ := LoadClientConfig(path, strict)
+	const evExt, evFile = "config.LoadAdditionalClientConfigs", "config.LoadConfigureFromFile"
+	if verif.Called(evExt) {
+		verif.Ensures(!legacyFormat && verif.CalledWith(evExt, 1, false) && verif.CalledWith(evExt, 2, strict), "included_files_decoded_under_the_callers_strictness")
+	}
+	if verif.Called(evFile) {
+		verif.Ensures(verif.CalledWith(evFile, 2, strict), "main_file_decoded_under_the_callers_strictness")
 	}
 }
